@@ -67,6 +67,7 @@ def gen_case(rng, i, tier):
     if i % 3 == 1 or i % 6 == 0:    # i % 6 == 0: weights together with several right-hand sides
         wk = "pos"
         build.append(["weights", [hx(round_to(rng.uniform(0.5, 2.0), sc), sc) for _ in range(N)]])
+    rng.shuffle(build)     # the order of the builder calls must not matter
     case = {"scalar": sc, "ctor": ctor, "model": spec, "faults": None, "build": build,
             "ops": [["observe"], ["fit", {}], ["observe"], ["jac_quiet"], ["ref", [hx(t, sc) for t in truth]]],
             "meta": {"family": fam, "N": N, "M": len(basis), "P": P, "S": S, "weights": wk, "noise_rel": noise_rel, "truth": truth}}
@@ -99,6 +100,12 @@ def metrics(c, r):
         out["cos"] = worst
         out["rel_resid"] = rn / yn if yn > 0 else 0.0
     if fit["best_fit"] is not None:
+        # the objective the caller posed: sum over samples and columns of (w_i (y_is - f_is))^2 with the weights and observations
+        # exactly as supplied (whatever the order of the builder calls)
+        ws = [o for o in c["build"] if o[0] == "weights"]
+        wv = [unhx(h) for h in ws[-1][1]] if ws else None
+        out["ssq_caller"] = sum(((wv[i] if wv else 1.0) * (unhx(y) - unhx(f))) ** 2
+                                for cb, cy in zip(fit["best_fit"]["cols"], Y) for i, (f, y) in enumerate(zip(cb, cy)))
         bf = fit["best_fit"]["cols"]
         out["max_dev"] = max(abs(unhx(a) - unhx(b)) for cb, cy in zip(bf, Y) for a, b in zip(cb, cy)) / max(yn / math.sqrt(len(Y) * len(Y[0])), 1e-300)
     return out
@@ -138,6 +145,12 @@ def main(tier, seed, replay=None):
             continue
         stats["ok"] += 1
         thr = THR[sc]
+        if "ssq_caller" in mt:
+            tolr = 1e-6 if sc == "f64" else 1e-2
+            if abs(mt["ssq_caller"] - mt["ssq"]) > tolr * max(mt["ssq_caller"], mt["ssq"]) + (tolr * 1e-3 * mt["ynorm"]) ** 2:
+                run.violation("the sum of squares the problem minimised (%g) is not the weighted sum of squares of the problem the caller posed (%g)"
+                              % (mt["ssq"], mt["ssq_caller"]), {"case": c, "metrics": mt})
+                continue
         if "ssq_truth" in mt:
             ratio = mt["ssq"] / mt["ssq_truth"] if mt["ssq_truth"] > 0 else (0.0 if mt["ssq"] <= thr["ssq_slack"] * mt["ynorm"] ** 2 else float("inf"))
             if mt["ssq_truth"] > (thr["ssq_slack"] * mt["ynorm"]) ** 2:
